@@ -1,5 +1,6 @@
-"""C11 on the unchanged /repo: new_cells_from_module / import_module stop half-way (known finding
-C11-batch-cells-module-half-way).  Run: /venv/bin/python notes/R6C11-repro_batch_module.py   (exit 1 = defect)"""
+"""C11: new_cells_from_module / import_funcs stopped half-way (finding C11-batch-cells-module-half-way, repaired by /repo
+8ba4963; the import_module part is notes/R6C11-repro_import_module.py).
+Run: /venv/bin/python notes/R6C11-repro_batch_module.py   (exit 1 = defect; 0 on /repo since 8ba4963)"""
 import sys, os, types, warnings, tempfile, importlib.util
 warnings.simplefilter("ignore")
 sys.path.insert(0, os.environ.get("MODELX_REPO", "/repo"))
@@ -38,8 +39,6 @@ for label, call in [
     ("a function named like a child space", lambda m: m.S.import_funcs(module("m2", "def a(x): return x\ndef child(x): return x\n"))),
     ("a function named like a reference of a sub space", lambda m: m.S.new_cells_from_module(module("m3", "def a(x): return x\ndef q(x): return x\n"))),
     ("two lambdas on a line", lambda m: m.S.new_cells_from_module(module("m4", "def a(x): return x\nb = lambda x: x; c = lambda x: 2 * x\n"))),
-    ("import_module with a base, a function named like a reference of the base", lambda m: m.import_module(
-        module("T", "def a(x): return x\ndef k(x): return x\n"), bases=m.S)),
 ]:
     m = build()
     before = members(m)
